@@ -235,9 +235,11 @@ func extractScript(repo, out string) ([]string, error) {
 	// evalStack: how do the six comparison clauses compare an int64 with a float64? Per clause the number
 	// of cmpIntFloat(…) calls (exact comparison) and of float64(…) conversions (rounding comparison).
 	hasCmpIntFloat := false
+	cmpIntFloatSrc := ""
 	for _, d := range sf.Decls {
 		if fd, ok := d.(*ast.FuncDecl); ok && fd.Recv == nil && fd.Name.Name == "cmpIntFloat" {
 			hasCmpIntFloat = true
+			cmpIntFloatSrc = scrNodeText(fset, &ast.FuncDecl{Name: fd.Name, Type: fd.Type, Body: fd.Body})
 		}
 	}
 	type cmpSite struct {
@@ -488,6 +490,7 @@ func extractScript(repo, out string) ([]string, error) {
 	b.WriteString("]\n\n")
 	fmt.Fprintf(&b, "/-- the `case float64:` of `!=` is `if tr, ok := right.(int64); ok { … }` (the result stays true for any other right operand) -/\ndef neqFloatGuarded : Bool := %v\n\n", neqFloatGuarded)
 	fmt.Fprintf(&b, "/-- a function `cmpIntFloat` is declared in jp/script.go -/\ndef hasCmpIntFloat : Bool := %v\n\n", hasCmpIntFloat)
+	fmt.Fprintf(&b, "/-- the declaration of `cmpIntFloat` as go/printer writes it (comments dropped) -/\ndef cmpIntFloatSrc : String := %s\n\n", scrLeanStr(cmpIntFloatSrc))
 	b.WriteString("/-- the comparison clauses of evalStack: (label, calls of cmpIntFloat, conversions float64(…)) -/\ndef cmpSites : List (String × Nat × Nat) := [")
 	for i, c := range cmpSites {
 		if i > 0 {
